@@ -92,8 +92,8 @@ func c06Plan(tier string) []PlanItem {
 func init() {
 	oracles["C06"] = oracleC06
 	props["C06"] = &propDef{
-		Level: "fault_enumeration",
-		Rule:  "the leader is removed (graceful stop with and without key deletion, crash, permanent partition, outside deletion) and, by moving that script item, at every choice point of the base run; per-event choice of dropping/delaying each watch notification (subsets of size <= D) plus the two presets deliver-all / drop-all; transient failures (<= D consecutive) of Watch/Get/Create on the candidates; N in {2,3}; K1, K2. On each, every execution with <= D deviations; oracle: every vacancy instant from the store log is followed by a promotion of a healthy instance within 600ms plus the latencies the harness injected; non-trivial = a vacancy occurred while a healthy candidate existed",
+		Level:  "fault_enumeration",
+		Rule:   "the leader is removed (graceful stop with and without key deletion, crash, permanent partition, outside deletion) and, by moving that script item, at every choice point of the base run; per-event choice of dropping/delaying each watch notification (subsets of size <= D) plus the two presets deliver-all / drop-all; transient failures (<= D consecutive) of Watch/Get/Create on the candidates; N in {2,3}; K1, K2. On each, every execution with <= D deviations; oracle: every vacancy instant from the store log is followed by a promotion of a healthy instance within 600ms plus the latencies the harness injected; non-trivial = a vacancy occurred while a healthy candidate existed",
 		Assume: []string{"latencies injected into the candidates' operations are added to the bound (upper bound, so no false alarm)", "expiry instant = write time + TTL in the reference store"},
 		Plan:   c06Plan,
 	}
